@@ -101,7 +101,21 @@ def file_level_phase(v):
                     found_input=m["entry"] in ("ltx_apply", "ltx_restore") and not spec_bad)
 
 
-PHASES = [file_level_phase]
+def store_level_phase(v):
+    """real histories of {sync-upload, Compact L, Store.CompactDB, Snapshot} over 1..8 levels (Store layer):
+    listings = Store/Ops.v, levels_contiguous on every listing, every level>=1 file = re-composition of the
+    archived L0 files, Restore(TXID) the same whichever plan is used"""
+    from . import store_common as S
+
+    def classify(m):
+        return ("C06/levels-not-contiguous",
+                "an observed listing of a retention-free history violates levels_contiguous (Store/Spec.v): a level is "
+                "not an exact chain from TXID 1, a file does not end at a boundary of the level below, or an L0 file is "
+                "missing; input (pos had_snapshot retention_free listing)", True)
+    S.store_phase(v, PID, "c06", 60, 2500, ("store_run", "store_inv_ok"), ("C06/",), classify)
+
+
+PHASES = [file_level_phase, store_level_phase]
 
 
 def run(v):
@@ -116,9 +130,12 @@ def run(v):
 def replay(v, path):
     rep = json.load(open(path))
     lines = rep["replay"].get("case_lines")
-    if not lines:
+    if not lines and "index" not in rep["replay"]:
         print("replay file names no input:", rep["replay"].get("theorem_or_correspondence"))
         return 1
+    if "index" in rep["replay"] or any(l.startswith("store_") for l in lines or []):
+        from . import store_common as S
+        return S.replay(v, path, PID)
     C.build_runner(LAYERS)
     C.build_harness("ltx")
     out = os.path.join(C.WORK, PID, "replay")
